@@ -48,6 +48,8 @@ def cases(rng, tier):
     n = 120 if tier == "quick" else 1500
     for _ in range(n):
         cs.append({"line": f"cfg {C.hexs(G.gen_program(rng))}", "exe": "analyze", "tags": ["cfg-structured"]})
+        if rng.random() < 0.25:
+            cs.append({"line": f"cfg {C.hexs(G.gen_fallthrough_jumpi(rng))}", "exe": "analyze", "tags": ["cfg-fallthrough-jumpi"]})
     for _ in range(30 if tier == "quick" else 400):
         cs.append({"line": f"cfg {C.hexs(G.gen_double_read(rng))}", "exe": "analyze", "tags": ["cfg-double-read"]})
     for op in G.ARITH + [0x35, 0x51, 0x54, 0x5a]:
